@@ -25,6 +25,9 @@ RULE = (
     "(legacy and non-legacy): bind_native(n) and bind_native(n, alias) for "
     "every name n followed by calls by name and alias; every public symbol of "
     "every bundled module via `require M; M->sym(args)` and via `unqualified`; "
+    "module specs that try to leave the module directories (../ chains, "
+    "relative and absolute paths to a script in the canary, in five require "
+    "forms); "
     "about 40 syntactic ways of defining / assigning / shadowing the secure "
     "flag each followed by binding attempts; every one- and two-step "
     "sequence of plain, destructuring and compound (+= -= *= /= %=) "
@@ -37,7 +40,9 @@ RULE = (
     "non-secure interpreter on a scratch canary does cause a forbidden event."
 )
 ASSUMPTIONS = [
-    "permitted file access: reading / stat-ing *.ckl module sources, Python's "
+    "permitted file access: reading / stat-ing *.ckl module sources in the "
+    "bundled module directory and in ~/.ckl/modules (no host module path is "
+    "configured), Python's "
     "own imports (*.py, *.pyc), time-zone data",
     "get_env and the PS/LS/FS/OS_* constants are not in the statement's list "
     "and are ignored",
@@ -47,7 +52,7 @@ ASSUMPTIONS = [
 
 EVENTS = []
 STATE = {"active": False, "installed": False}
-PERMIT_SUFFIX = (".ckl", ".py", ".pyc")
+PERMIT_SUFFIX = (".py", ".pyc")
 PERMIT_PREFIX = ("/usr/share/zoneinfo", "/etc/localtime", "/proc/self")
 FORBIDDEN_AUDIT = {
     "open", "os.listdir", "os.scandir", "os.mkdir", "os.remove", "os.rmdir",
@@ -60,6 +65,18 @@ FORBIDDEN_AUDIT = {
 }
 
 
+def _module_dirs():
+    """Where `require` may read module sources: the bundled modules and the
+    user's ~/.ckl/modules (no host module path is configured here)."""
+    import ckl
+    dirs = [os.path.join(os.path.dirname(os.path.abspath(ckl.__file__)),
+                         "modules")]
+    home = os.environ.get("HOME")
+    if home:
+        dirs.append(os.path.join(home, ".ckl", "modules"))
+    return [os.path.realpath(d) for d in dirs]
+
+
 def _permitted_path(p):
     try:
         p = os.fspath(p)
@@ -67,6 +84,18 @@ def _permitted_path(p):
         return False
     if isinstance(p, bytes):
         p = p.decode("utf-8", "replace")
+    if p.endswith(".ckl"):
+        # a module source - but only from a module directory (the monitor
+        # must not log its own path look-ups)
+        was = STATE["active"]
+        STATE["active"] = False
+        try:
+            d = os.path.realpath(os.path.dirname(os.path.abspath(p)))
+            return d in _module_dirs()
+        except (OSError, ValueError):
+            return False
+        finally:
+            STATE["active"] = was
     return p.endswith(PERMIT_SUFFIX) or p.startswith(PERMIT_PREFIX) \
         or "__pycache__" in p
 
@@ -144,7 +173,8 @@ class Monitored:
 
 # -------------------------------------------------------------------- canary
 
-SCRIPT = "def f = file_output('pwned_by_script.txt'); print('x', f); close(f); 1\n"
+SCRIPT = ("def marker = 1; def f = file_output('pwned_by_script.txt'); "
+          "print('x', f); close(f); 1\n")
 
 
 class Canary:
@@ -355,6 +385,13 @@ def check_secure(src, legacy, label):
     """Run src in a secure interpreter; returns Finding or None."""
     D = get_D()
     canary = Canary()
+    if "@REL@" in src or "@ABS@" in src:
+        import ckl
+        moddir = os.path.join(os.path.dirname(os.path.abspath(ckl.__file__)),
+                              "modules")
+        target = os.path.join(os.path.realpath(canary.dir), "script")
+        src = src.replace("@REL@", os.path.relpath(target, moddir)) \
+                 .replace("@ABS@", target.lstrip("/"))
     kind, events, changed, it = run_program(src, True, legacy, canary)
     if kind.startswith("host:") and False:
         pass
@@ -498,6 +535,31 @@ def assign_programs():
             yield ("assign2", f"{guarded(a)}; {guarded(b)}; {B}")
 
 
+def traversal_programs():
+    """Module specs that try to leave the module directories: the canary's
+    work directory (the cwd) holds script.ckl."""
+    import ckl
+    moddir = os.path.join(os.path.dirname(os.path.abspath(ckl.__file__)),
+                          "modules")
+    specs = []
+    for depth in range(0, 12):
+        up = "../" * depth
+        specs += [f"{up}script", f"{up}work/script", f"./{up}script",
+                  f"{up}script.ckl"]
+    # from the package's module directory to the cwd (resolved at run time
+    # inside the canary, see _run_list)
+    specs += ["@REL@", "@REL@.ckl", "@ABS@", "@ABS@.ckl", "/@ABS@",
+              "script", "./script", "work/../script", "sub/../script",
+              "Math/../../script", "math/../@REL@"]
+    for sp in specs:
+        for form in ('require "{s}" as ev; ev->marker',
+                     'require "{s}" unqualified; marker',
+                     'require "{s}" import [marker]; marker',
+                     'def m = "{s}"; require m as ev; ev->marker',
+                     'def f() do require "{s}" as ev; ev->marker end; f()'):
+            yield ("traversal", guarded(form.format(s=sp)))
+
+
 def module_programs(legacy):
     from ckl.interpreter import Interpreter
     it = Interpreter(False, True)
@@ -577,6 +639,11 @@ def part_assign(part, legacy, shard, nshards):
     part.exhaustive = True
 
 
+def part_traversal(part, legacy):
+    _run_list(part, list(traversal_programs()), legacy, teeth_every=10 ** 9)
+    part.exhaustive = True
+
+
 def part_modules(part, legacy, shard, nshards):
     progs = [p for i, p in enumerate(module_programs(legacy))
              if i % nshards == shard]
@@ -642,6 +709,7 @@ def parts(tier, seed):
         ps += [(f"assign-{tag}{i}", part_assign,
                 {"legacy": legacy, "shard": i, "nshards": 6})
                for i in range(6)]
+        ps += [(f"traversal-{tag}", part_traversal, {"legacy": legacy})]
         ps += [(f"modules-{tag}{i}", part_modules,
                 {"legacy": legacy, "shard": i, "nshards": 3})
                for i in range(3)]
